@@ -309,6 +309,11 @@ func (g *valueGen) fillAttr(f reflect.Value, a *spec.Attr, path string) {
 
 func (g *valueGen) msgElem(v reflect.Value, a *spec.Attr, path string) {
 	if v.Kind() == reflect.Ptr {
+		// a nil element is a value of the Go type too (the converters render it as a null element)
+		if g.pick(14, path, "nil-elem") == 0 {
+			g.sig.WriteString("N")
+			return
+		}
 		p := reflect.New(v.Type().Elem())
 		g.fillMsg(p.Elem(), a.Msg, path)
 		v.Set(p)
@@ -320,6 +325,10 @@ func (g *valueGen) msgElem(v reflect.Value, a *spec.Attr, path string) {
 // elem fills a list element / map value of a scalar-like leaf.
 func (g *valueGen) elem(v reflect.Value, a *spec.Attr, path string) {
 	if v.Kind() == reflect.Ptr {
+		if g.pick(14, path, "nil-elem") == 0 {
+			g.sig.WriteString("N")
+			return
+		}
 		p := reflect.New(v.Type().Elem())
 		g.leaf(p.Elem(), a, path, false)
 		v.Set(p)
